@@ -153,6 +153,24 @@ CLAIMED["C16"] = (
     "predicted action with only that action's middleware; non-pointer / non-struct controllers must be rejected.",
     "generated controllers; resource name = lower-cased type name; trusted: TLC, reflect", "6 C16")
 
+CLAIMED["C20"] = (
+    "TLA+ spec RuxGates (statement-level decision vs code steps for HTTPBasicAuth, HTTPMethodOverrideHandler, WrapHTTPHandlers) "
+    "model-checked over every case; every case concretised into real requests against the real handlers",
+    "4 account maps x (absent, 5 malformed shapes, 9 user/password pairs) credentials, 9 methods x 9 x 9 override carrier values, "
+    "all wrapper lists of 1..4: code steps agree with the statement in the spec; on the real code: status, WWW-Authenticate, which "
+    "handlers ran (gate as global, group and route middleware), method and original method seen by the routed handler, enter/leave "
+    "order of wrappers and of a wrapped generic handler between native middleware.",
+    "two disagreeing override carriers: either reading is admissible (the statement is silent); trusted: TLC, net/http BasicAuth", "6 C20")
+CLAIMED["C17"] = (
+    "TLA+ spec RuxStatic (abstract tree with a secret beside the root; decoding, cleaning, extension rule of the rux-side pipeline) "
+    "model-checked over every raw request path; every path requested from real StaticDir/StaticFS/StaticFiles/StaticFile handlers "
+    "on a real temporary tree with marker files",
+    "All raw paths of <=3/4 segments over 15 segment tokens ('..', '.', empty, %2e%2e, %2f-joined traversals, trailing dot, names "
+    "inside and outside the root) plus back-slash / NUL / trailing-dot / double-slash variants: in the model Clean never leaves the "
+    "root and StaticFiles obeys the extension rule; on the real handlers no response ever contains the content of the files outside "
+    "the root, StaticFiles bodies imply the extension condition, and 200 responses carry exactly the file the model serves.",
+    "confinement is largely net/http's; no symlinks; redirects/4xx/5xx unconstrained (safety claim); trusted: TLC, os, net/http", "6 C17")
+
 PENDING = {}
 
 
